@@ -773,11 +773,48 @@ impl<W: Read + Write> MysqlShim<W> for ScriptShim {
                 let _n = params.into_iter().count();
                 self.log.borrow_mut().cbs[i].params_consumed = Some("counted");
             }
-            Some(_) => {
+            Some(2) => {
                 if let Some(p) = params.into_iter().next() {
                     obs.push(observe_param(p, conv));
                 }
                 self.log.borrow_mut().cbs[i].params_consumed = Some("first");
+            }
+            // the iterator adaptors a backend may reach for (std routes `skip` and `step_by` through
+            // `Iterator::nth`, `last` through `fold`): the items they yield are the parameters at those
+            // positions
+            Some(3) => {
+                if let Some(p) = params.into_iter().nth(1) {
+                    obs.push(observe_param(p, conv));
+                }
+                self.log.borrow_mut().cbs[i].params_consumed = Some("nth1");
+            }
+            Some(4) => {
+                for p in params.into_iter().skip(1) {
+                    obs.push(observe_param(p, conv));
+                }
+                self.log.borrow_mut().cbs[i].params_consumed = Some("skip1");
+            }
+            Some(5) => {
+                for p in params.into_iter().step_by(2) {
+                    obs.push(observe_param(p, conv));
+                }
+                self.log.borrow_mut().cbs[i].params_consumed = Some("step2");
+            }
+            Some(6) => {
+                if let Some(p) = params.into_iter().last() {
+                    obs.push(observe_param(p, conv));
+                }
+                self.log.borrow_mut().cbs[i].params_consumed = Some("last");
+            }
+            Some(_) => {
+                let mut it = params.into_iter();
+                if let Some(p) = it.nth(2) {
+                    obs.push(observe_param(p, conv));
+                }
+                for p in it {
+                    obs.push(observe_param(p, conv));
+                }
+                self.log.borrow_mut().cbs[i].params_consumed = Some("nth2-then-rest");
             }
         }
         if let CbKind::Execute { params, .. } = &mut self.log.borrow_mut().cbs[i].kind {
